@@ -11,11 +11,36 @@ set_option linter.unusedVariables false
 
 namespace Golib.C04
 
-/-- client obligations: those of the heap op, and a Seq slot must exist -/
+/-- the spec run of a list of calls -/
+def SpecRun : HSpec → List HOp → List HRet → HSpec → Prop
+  | s, [], rs, s' => rs = [] ∧ s' = s
+  | s, o :: os, rs, s' => ∃ r rs', rs = r :: rs' ∧ specOK s o r ∧ SpecRun (specStep s o r) os rs' s'
+
+/-- The explicit loop on the spec, `for len(h) > 0 { e := Pop(); body(i, e); if i+1 == k { break } }`:
+`es` = the elements yielded, `rs` = the results of the body's calls, `d` = the loop ended within
+`f` rounds. At its turn every yielded `e` is a live handle no live handle precedes (`IsMin`) in the
+state left by the EARLIER bodies, and the body of its iteration runs in the state where `e` has
+already left (`specPop`). -/
+def BodyLoopOK (h : Fin 2) (body : Nat → List HOp) (k : Nat) :
+    Nat → Nat → HSpec → List Nat → List HRet → Bool → HSpec → Prop
+  | 0, _, s, es, rs, d, s' => es = [] ∧ rs = [] ∧ d = false ∧ s' = s
+  | f + 1, i, s, es, rs, d, s' =>
+    (s.live h = [] ∧ es = [] ∧ rs = [] ∧ d = true ∧ s' = s) ∨
+    ∃ e es' rs1 rs2 s1, es = e :: es' ∧ rs = rs1 ++ rs2 ∧ IsMin s h e ∧
+      SpecRun (specPop s h e) (body i) rs1 s1 ∧
+      (if i + 1 = k then es' = [] ∧ rs2 = [] ∧ d = true ∧ s' = s1
+       else BodyLoopOK h body k f (i + 1) s1 es' rs2 d s')
+
+/-- client obligations: those of the heap op; a Seq slot / cursor must exist; the calls of a loop
+body are calls without obligations (Push, Pop, Peek, Len, Remove, Fix, PopAll …) -/
 def cPre (s : HSpec) (c : HClient) : COp → Prop
   | .op o => specPre s o
   | .range i _ => i < c.seqs.length
   | .rangeAll i => i < c.seqs.length
+  | .popAllBody _ _ script => ∀ l, l ∈ script → ∀ o, o ∈ l → ∀ s', specPre s' o
+  | .pull i => i < c.seqs.length
+  | .next j => j < c.curs.length
+  | .stop j => j < c.curs.length
   | _ => True
 
 /-- The heap op a client op amounts to on the CURRENT state (`none`: no heap is touched). -/
@@ -23,19 +48,77 @@ def COp.heapOp (c : HClient) : COp → Option HOp
   | .op o => some o
   | .range i k => (c.seqs[i]?).map fun h => HOp.popAllN h k
   | .rangeAll i => (c.seqs[i]?).map fun h => HOp.popAll h
+  | .next j =>
+    match c.curs[j]? with
+    | some (h, true) => some (HOp.pop h)
+    | _ => none
   | _ => none
 
-/-- What one client op does: either exactly its heap op (same state change, same result, spec
-step of that op), or nothing at all. -/
+/-- What one client op does. `popAllBody`: the explicit loop on the spec. `next` on an active
+cursor: exactly one `Pop` on the shared heap (the cursor is finished iff that `Pop` answered nil);
+on a finished cursor: nil, nothing changes. Otherwise: exactly the heap op it amounts to (same
+state change, same result, spec step of that op), or nothing at all. -/
 def CPost (c : HClient) (s : HSpec) (o : COp) (c' : HClient) (r : HRet) (s' : HSpec) : Prop :=
-  match o.heapOp c with
-  | some ho => stepH c.st ho = some (c'.st, r) ∧ specOK s ho r ∧ s' = specStep s ho r
-  | none => c'.st = c.st ∧ r = .unit ∧ s' = s
+  match o with
+  | .popAllBody h k script =>
+    ∃ es rs d, r = .bodyRes es (rs.flatMap HRet.toInts) d ∧
+      BodyLoopOK h (scriptBody script) k (bodyFuel c h script) 0 s es rs d s'
+  | .next j =>
+    match c.curs[j]? with
+    | some (h, true) => stepH c.st (.pop h) = some (c'.st, r) ∧ specOK s (.pop h) r ∧
+        s' = specStep s (.pop h) r ∧ c'.curs[j]? = some (h, !r.isNil)
+    | _ => c' = c ∧ r = .handle none ∧ s' = s
+  | _ =>
+    match o.heapOp c with
+    | some ho => stepH c.st ho = some (c'.st, r) ∧ specOK s ho r ∧ s' = specStep s ho r
+    | none => c'.st = c.st ∧ r = .unit ∧ s' = s
 
 def CSteps : List COp → HClient → HSpec → Prop
   | [], _, _ => True
   | o :: os, c, s => cPre s c o → ∃ c' r s', stepC c o = some (c', r) ∧ CPost c s o c' r s' ∧
       Rel c'.st s' ∧ CSteps os c' s'
+
+theorem runH_refines : ∀ (ops : List HOp) (st : HState) (s : HSpec), Rel st s →
+    (∀ o, o ∈ ops → ∀ s', specPre s' o) →
+    ∃ st' rs s', runH st ops = some (st', rs) ∧ SpecRun s ops rs s' ∧ Rel st' s' := by
+  intro ops
+  induction ops with
+  | nil => intro st s R _; exact ⟨st, [], s, rfl, ⟨rfl, rfl⟩, R⟩
+  | cons o os ih =>
+    intro st s R hp
+    obtain ⟨st1, r, hrun, hok, R1⟩ := step_refines R o (hp o (List.mem_cons_self) s)
+    obtain ⟨st2, rs, s2, hrun2, hsr, R2⟩ := ih st1 _ R1 (fun o' ho' => hp o' (List.mem_cons_of_mem _ ho'))
+    exact ⟨st2, r :: rs, s2, by simp [runH, hrun, hrun2], ⟨r, rs, rfl, hok, hsr⟩, R2⟩
+
+/-- `PopAll` with a loop body (pop, then yield, as coded) = the explicit loop on the spec. -/
+theorem body_loop (h : Fin 2) (body : Nat → List HOp) (k : Nat)
+    (hb : ∀ i o, o ∈ body i → ∀ s', specPre s' o) :
+    ∀ (f i : Nat) (st : HState) (s : HSpec), Rel st s →
+    ∃ st' es rs d s', popAllBody h body k f i st = some (st', es, rs, d) ∧
+      BodyLoopOK h body k f i s es rs d s' ∧ Rel st' s' := by
+  intro f
+  induction f with
+  | zero => intro i st s R; exact ⟨st, [], [], false, s, rfl, ⟨rfl, rfl, rfl, rfl⟩, R⟩
+  | succ f ih =>
+    intro i st s R
+    by_cases h0 : st.m.arr h.val = []
+    · obtain ⟨hrun, hl⟩ := (rel_pop R h).1 h0
+      exact ⟨st, [], [], true, s, by simp [popAllBody, hrun], Or.inl ⟨hl, rfl, rfl, rfl, rfl⟩, R⟩
+    · obtain ⟨m1, e, hrun, hmin, R1⟩ := (rel_pop R h).2 h0
+      obtain ⟨st2, rs1, s1, hrun1, hsr, R2⟩ := runH_refines (body i) _ _ R1 (hb i)
+      by_cases hk : i + 1 = k
+      · refine ⟨st2, [e], rs1, true, s1, by simp [popAllBody, hrun, hrun1, hk], Or.inr ?_, R2⟩
+        exact ⟨e, [], rs1, [], s1, rfl, by simp, hmin, hsr, by simp [hk]⟩
+      · obtain ⟨st3, es, rs2, d, s3, hrun3, hok3, R3⟩ := ih (i + 1) st2 s1 R2
+        refine ⟨st3, e :: es, rs1 ++ rs2, d, s3, by simp [popAllBody, hrun, hrun1, hk, hrun3], Or.inr ?_, R3⟩
+        exact ⟨e, es, rs1, rs2, s1, rfl, rfl, hmin, hsr, by simp [hk]; exact hok3⟩
+
+theorem mem_scriptBody {script : List (List HOp)} {i : Nat} {o : HOp} (h : o ∈ scriptBody script i) :
+    ∃ l, l ∈ script ∧ o ∈ l := by
+  unfold scriptBody at h
+  cases hg : script[i]? with
+  | none => rw [hg] at h; cases h
+  | some l => rw [hg] at h; exact ⟨l, List.mem_of_getElem? hg, h⟩
 
 theorem client_step {c : HClient} {s : HSpec} (R : Rel c.st s) (o : COp) (hpre : cPre s c o) :
     ∃ c' r s', stepC c o = some (c', r) ∧ CPost c s o c' r s' ∧ Rel c'.st s' := by
@@ -71,6 +154,42 @@ theorem client_step {c : HClient} {s : HSpec} (R : Rel c.st s) (o : COp) (hpre :
   | copyFix h e =>
     have hrun := (heap_handles_ignored (c.st.cmp h.val) c.st.m (h.val + 2) e (foreign h e)).2
     exact ⟨c, .unit, s, by simp [stepC, hrun], ⟨rfl, rfl, rfl⟩, R⟩
+  | popAllBody h k script =>
+    have hb : ∀ i o, o ∈ scriptBody script i → ∀ s', specPre s' o := by
+      intro i o ho
+      obtain ⟨l, hl, hol⟩ := mem_scriptBody ho
+      exact hpre l hl o hol
+    obtain ⟨st', es, rs, d, s', hrun, hok, R'⟩ :=
+      body_loop h (scriptBody script) k hb (bodyFuel c h script) 0 c.st s R
+    exact ⟨{ c with st := st' }, _, s', by simp [stepC, hrun], ⟨es, rs, d, rfl, hok⟩, R'⟩
+  | pull i =>
+    have hi : i < c.seqs.length := hpre
+    have hget : c.seqs[i]? = some c.seqs[i] := List.getElem?_eq_getElem hi
+    exact ⟨{ c with curs := c.curs ++ [(c.seqs[i], true)] }, .unit, s, by simp [stepC, hget],
+      ⟨rfl, rfl, rfl⟩, R⟩
+  | stop j =>
+    have hj : j < c.curs.length := hpre
+    have hget : c.curs[j]? = some c.curs[j] := List.getElem?_eq_getElem hj
+    exact ⟨{ c with curs := c.curs.set j ((c.curs[j]).1, false) }, .unit, s, by simp [stepC, hget],
+      ⟨rfl, rfl, rfl⟩, R⟩
+  | next j =>
+    have hj : j < c.curs.length := hpre
+    have hget : c.curs[j]? = some c.curs[j] := List.getElem?_eq_getElem hj
+    rcases hcj : c.curs[j] with ⟨hh, b⟩
+    rw [hcj] at hget
+    cases b with
+    | false =>
+      refine ⟨c, .handle none, s, by simp [stepC, hget], ?_, R⟩
+      simp [CPost, hget]
+    | true =>
+      obtain ⟨st', r, hrun, hok, R'⟩ := viaHeap (.pop hh) trivial
+      refine ⟨{ c with st := st', curs := if r.isNil then c.curs.set j (hh, false) else c.curs }, r, _,
+        by simp [stepC, hget, hrun], ?_, R'⟩
+      simp only [CPost, hget]
+      refine ⟨hrun, hok, trivial, ?_⟩
+      cases hn : r.isNil
+      · simp [hn, hget]
+      · simp [hn, hj]
 
 theorem client_steps : ∀ (ops : List COp) (c : HClient) (s : HSpec), Rel c.st s → CSteps ops c s := by
   intro ops
